@@ -611,6 +611,26 @@ func literals() *core.Family {
 	lng("-9223372036854775808", gen.MinI)
 	lng("- 9223372036854775808", gen.MinI)
 	lng("-0", 0)
+	// zero-padded spellings of every small value and of the boundary values: the grammar's INT is
+	// a run of decimal digits, whatever the first one is
+	padVals := []int64{77, 88, 89, 99, 100, 255, 256, 511, 512, 1000, 4095, 65536, gen.MaxI}
+	for v := int64(0); v <= 20; v++ {
+		padVals = append(padVals, v)
+	}
+	for _, v := range padVals {
+		for _, p := range []int{1, 2, 3, 19, 40} {
+			z := strings.Repeat("0", p)
+			lng(fmt.Sprintf("%s%d", z, v), v)
+			lng(fmt.Sprintf("-%s%d", z, v), -v)
+		}
+	}
+	lng("-009223372036854775808", gen.MinI)
+	bad("009223372036854775808")
+	bad("0b1")
+	bad("0o7")
+	bad("0X10")
+	bad("0_1")
+	bad("1_0")
 	bad("9223372036854775808")
 	bad("-9223372036854775809")
 	bad("99999999999999999999")
